@@ -110,7 +110,7 @@ Proof. vm_compute. reflexivity. Qed.
    Both directions of a structure with a descriptor LIST, over the REGENERATED bodies of builder and decoder (Gen/PyFuncs.v) under the
    semantics of the small Python (Model/Py.v): GET LBA STATUS, any number of descriptors. *)
 From Coq Require Import ZArith List.
-From PS Require Import Model.Py Proofs.PyParsers Proofs.PyTotal Proofs.PyRoundTrip Gen.PyFuncs.
+From PS Require Import Model.Py Proofs.PyParsers Proofs.PyTotal Proofs.PyRoundTrip Proofs.PyRoundTrip2 Gen.PyFuncs.
 Import ListNotations.
 
 (* the builder: header whose PARAMETER DATA LENGTH counts what follows it, then one 16-byte descriptor per dictionary, in order *)
@@ -154,3 +154,23 @@ Theorem C06_py_readcapacity16_round_trip : forall (dv : list (String.string * va
   exists built, call_fun all_tables py_program f "scsi_cdb_readcapacity16.ReadCapacity16.marshall_datain" [PDict (dict_of_decoded dv)] = Ok (PBytes built) /\
     call_fun all_tables py_program f "scsi_cdb_readcapacity16.ReadCapacity16.unmarshall_datain" [PBytes built] = Ok (PDict (dict_of_decoded dv)).
 Proof. exact readcapacity16_round_trip. Qed.
+
+(* REPORT PRIORITY: descriptors that carry their own length (8 fixed bytes + a TransportID of ADDITIONAL LENGTH bytes).  The builder, for
+   any number of dictionaries and any TransportID lengths: per dictionary the table fields, ADDITIONAL LENGTH := len(TransportID), the
+   TransportID; PRIORITY PARAMETER DATA LENGTH := what follows *)
+Theorem C06_py_reportpriority_build : forall (all : list rp_item) f, Forall rpi_ok all -> (1 <= f)%nat ->
+  call_fun all_tables py_program f RPRIM [PDict [("priority_descriptors", PList (map rpi_dict all))]]
+  = Ok (PBytes (int_to_ba (N.of_nat (length (concat (map rpi_bytes all)))) 4 ++ concat (map rpi_bytes all))%list).
+Proof. exact reportpriority_build_exact. Qed.
+
+(* and decoding what was built returns the dictionaries and their TransportIDs, whole and in order *)
+Theorem C06_py_reportpriority_parse_inverts_build : forall (items : list (list (String.string * value) * bytes)) f,
+  Forall rp_item_ok items ->
+  (Z.of_nat (fold_right (fun it acc => (8 + length (snd it) + acc)%nat) 0%nat items) < 4294967296)%Z -> (length items + 2 <= f)%nat ->
+  exists built, call_fun all_tables py_program f RPRIM [PDict [("priority_descriptors", PList (map rp_item_dict items))]] = Ok (PBytes built) /\
+    call_fun all_tables py_program f RPRI [PBytes built] = Ok (PDict [("priority_descriptors", PList (map rp_item_dict items))]).
+Proof. exact reportpriority_parse_inverts_build. Qed.
+
+(* the hypotheses are satisfiable: a descriptor with a 3-byte TransportID *)
+Example C06_py_reportpriority_item : rp_item_ok ([("current_priority", VI 5); ("rtpi", VI 258); ("adlen", VI 3)], [1; 2; 3]).
+Proof. repeat split; try reflexivity. right; right; left; reflexivity. Qed.
